@@ -1,20 +1,22 @@
 #!/bin/bash
-# runs every seeded change against the check of its property (quick tier) and writes seeded/MATRIX.md
+# runs seeded changes against the check of their property (quick tier) and writes / updates seeded/MATRIX.md
+# usage: mutmatrix.sh            all seeded changes
+#        mutmatrix.sh C04-m4 ... only these (their lines are replaced in the existing matrix)
 cd /verif
 OUT=seeded/MATRIX.md
-echo "| seeded change | check | result | first alarm |" > $OUT.tmp
-echo "|---|---|---|---|" >> $OUT.tmp
-for d in $(ls -d seeded/C*-m* | sort -V); do
-  n=$(basename $d); id=${n%%-*}
+if [ $# -gt 0 ]; then LIST="$@"; else LIST=$(ls -d seeded/C*-m* | sort -V | xargs -n1 basename); fi
+[ -f $OUT ] || { echo "| seeded change | check | result | first alarm |" > $OUT; echo "|---|---|---|---|" >> $OUT; }
+for n in $LIST; do
+  d=seeded/$n; id=${n%%-*}
   extra=""
   if grep -q '"superseded"' $d/meta.json 2>/dev/null; then extra="superseded (see meta.json)"; fi
-  if grep -q '"out_of_scope"' $d/meta.json 2>/dev/null; then extra="out of scope (see meta.json)"; fi
   res=$(tools/muttest.sh $n $id quick 2>&1)
   rc=$(echo "$res" | grep -a "MUTTEST" | sed 's/.*rc=//')
   if echo "$res" | grep -aq "APPLY FAILED"; then rc="patch does not apply"; fi
-  first=$(echo "$res" | grep -a "violation:" | head -1 | sed 's/.*violation: //; s/ -- .*//' | cut -c1-90)
+  first=$(echo "$res" | grep -a "violation:" | head -1 | sed 's/.*violation: //; s/ -- .*//' | cut -c1-90 | tr '|' '/')
   case "$rc" in 1) r="caught";; 0) r="no alarm";; *) r="$rc";; esac
-  echo "| $n | $id | $r $extra | $first |" >> $OUT.tmp
+  grep -v "^| $n |" $OUT > $OUT.tmp; mv $OUT.tmp $OUT
+  echo "| $n | $id | $r $extra | $first |" >> $OUT
   echo "$n $r $first"
 done
-mv $OUT.tmp $OUT
+(head -2 $OUT; tail -n +3 $OUT | sort -V) > $OUT.tmp && mv $OUT.tmp $OUT
